@@ -172,6 +172,26 @@ pub fn generate(rng: &mut Rng, tier: Tier, emit: &mut dyn FnMut(String)) {
         (by("CqlValue:udt"), 0, udt_ty(&[("a", int.clone()), ("b", int.clone())])),
         (by("CqlValue:udt"), 3, udt_ty(&[("a", int.clone()), ("b", text.clone())])), // left-over field, after all fields were written
         (by("CqlValue:list-of-tuples"), 2, Ty::List(Box::new(Ty::Tuple(vec![int.clone(), text.clone()])))),
+        // a UDT value naming a field the type lacks (fewer / as many / more fields than the type), top level and at depth:
+        // detected after every field of the type was written
+        (by("CqlValue:udt3"), 1, by("CqlValue:udt3").natural.clone()),
+        (by("CqlValue:udt3"), 2, by("CqlValue:udt3").natural.clone()),
+        (by("CqlValue:udt3"), 3, by("CqlValue:udt3").natural.clone()),
+        (by("CqlValue:udt3-names"), 1, by("CqlValue:udt3-names").natural.clone()),
+        (by("CqlValue:udt3-names"), 2, by("CqlValue:udt3-names").natural.clone()),
+        (by("CqlValue:udt3-names"), 3, by("CqlValue:udt3-names").natural.clone()),
+        (by("CqlValue:list-of-udt"), 2, by("CqlValue:list-of-udt").natural.clone()),
+        (by("CqlValue:list-of-udt"), 3, by("CqlValue:list-of-udt").natural.clone()),
+        (by("CqlValue:tuple-of-udt"), 2, by("CqlValue:tuple-of-udt").natural.clone()),
+        (by("CqlValue:tuple-of-udt"), 3, by("CqlValue:tuple-of-udt").natural.clone()),
+        (by("CqlValue:udt-in-udt"), 2, by("CqlValue:udt-in-udt").natural.clone()),
+        (by("CqlValue:udt-in-udt"), 3, by("CqlValue:udt-in-udt").natural.clone()),
+        (by("CqlValue:map-of-udt"), 2, by("CqlValue:map-of-udt").natural.clone()),
+        (by("CqlValue:map-of-udt"), 3, by("CqlValue:map-of-udt").natural.clone()),
+        (by("CqlValue:list-of-long-tuples"), 2, by("CqlValue:list-of-long-tuples").natural.clone()),
+        (by("CqlValue:list-of-long-tuples"), 3, by("CqlValue:list-of-long-tuples").natural.clone()),
+        (by("CqlValue:set-of-vectors"), 2, by("CqlValue:set-of-vectors").natural.clone()),
+        (by("CqlValue:set-of-vectors"), 3, by("CqlValue:set-of-vectors").natural.clone()),
         (by("(i32,i32,String)"), 0, Ty::Tuple(vec![int.clone(), int.clone(), int.clone()])), // 3rd field
         (by("(i32,String)"), 0, Ty::Tuple(vec![int.clone(), int.clone(), int.clone()])),
         (by("BTreeMap<i32,String>"), 0, Ty::Map(Box::new(int.clone()), Box::new(int.clone()))), // value after key
